@@ -1240,6 +1240,36 @@ pub fn c08(cfg: &Cfg, idx: u64, st: &mut Stats) {
         st.report("C08", &Case::FromIter(crate::multi::FromIterCase { entry, items, hint: (k % 4) as u8 }));
         return;
     }
+    if idx > files + 46 && idx <= files + 46 + 4 {
+        // an artifact of a few hundred KiB; every sampled corruption is also
+        // applied IN PLACE to a buffer that verified a moment ago (same
+        // address, same length, often the same trailer)
+        let fam = KeyFamily { n: 20_000 + 7_000 * (idx - files - 47), fanout: 26, keylen: 12, seed: rng.next_u64(), pairs: false, leaf_fan: 0, decreasing: false, repeat: 1, sec_vocab: 0, sec_parents: 0 };
+        let mut b = fst::MapBuilder::memory();
+        let mut key = Vec::new();
+        for i in 0..fam.n {
+            fam.key_into(i, &mut key);
+            b.insert(&key, fam.value(i)).expect("harness: artifact");
+        }
+        let bytes = b.into_inner().expect("harness: artifact");
+        let mut n = 0u64;
+        for _ in 0..60 {
+            let pos = biased_pos(&mut rng, bytes.len());
+            let val = bytes[pos] ^ (1 << rng.below(8));
+            let mut m = bytes.clone();
+            m[pos] = val;
+            n += 1;
+            if crate::restart::check_c08b_bytes(&bytes, &m, true).is_some() {
+                st.report("C08", &Case::Corrupt(CorruptCase { base: Base::Raw(bytes.clone()), muts: vec![Mutation::Subst { pos, val }] }));
+                return;
+            }
+        }
+        let mut d = crate::rng::Digest::new();
+        d.bytes(&bytes[..4096]);
+        st.bulk(d.finish(), n);
+        st.count("corrupt.in_place_on_artifact_of_several_100KiB", n);
+        return;
+    }
     if idx == files {
         // one artifact of several MiB: build path (byte-at-a-time sums) vs
         // verify path (16 bytes at a time over the whole file) at a scale
@@ -1391,7 +1421,14 @@ pub fn c08(cfg: &Cfg, idx: u64, st: &mut Stats) {
     // A(i) through benign sinks: the checksum of what a builder reports as
     // finished must not depend on how the sink chunked the writes
     if rng.chance(1, 6) {
-        let (task, _) = gen::sweep_task(&mut rng, 40, 8);
+        let (mut task, _) = gen::sweep_task(&mut rng, 40, 8);
+        if rng.chance(1, 3) {
+            // a builder that has refused calls in its history (also inside
+            // bulk calls that end early) still finishes with the checksum of
+            // what it wrote
+            task.ops = gen::with_rejected_noise(&mut rng, task.front, &task.ops);
+            st.count("probe.c08_build_with_refused_calls_in_its_history", 1);
+        }
         let shape = match rng.below(4) {
             0 => Shape::Cap(*rng.pick(&[1usize, 2, 3])),
             1 => Shape::Random { short_16: 16, intr_16: 0 },
@@ -1592,6 +1629,36 @@ pub fn c15(cfg: &Cfg, idx: u64, st: &mut Stats) {
                 plan: Plan::clean(),
                 random: Some((gen::benign_shape(&mut rng), rng.next_u64())),
             };
+            if rng.chance(1, 8) {
+                // the caller's key source panics inside one bulk call; the
+                // caller catches it and feeds the remaining items through
+                // further calls: same accepted sequence, same bytes
+                let bulk: Vec<usize> = bc
+                    .task
+                    .ops
+                    .iter()
+                    .enumerate()
+                    .filter(|(_, o)| matches!(o, Op::ExtIter(_) | Op::ExtStream(_, Via::Vec)))
+                    .map(|(i, _)| i)
+                    .collect();
+                if !bulk.is_empty() {
+                    let oi = bulk[rng.usize_below(bulk.len())];
+                    if let Op::ExtIter(items) | Op::ExtStream(items, _) = &bc.task.ops[oi] {
+                        let items = items.clone();
+                        let at = rng.usize_below(items.len() + 1);
+                        let via = if let Op::ExtStream(_, v) = &bc.task.ops[oi] { Some(*v) } else { None };
+                        let mut head: Vec<Item> = items[..at].to_vec();
+                        head.push((crate::front::PANIC_KEY.to_vec(), 0));
+                        let tail: Vec<Item> = items[at..].to_vec();
+                        let mk = |it: Vec<Item>| match via {
+                            Some(v) => Op::ExtStream(it, v),
+                            None => Op::ExtIter(it),
+                        };
+                        bc.task.ops.splice(oi..=oi, [mk(head), mk(tail)]);
+                        st.count("probe.c15_key_source_panics_inside_a_bulk_call", 1);
+                    }
+                }
+            }
             if rng.chance(1, 6) {
                 // a re-entrant writer: it builds another FST with the library
                 // inside write() before it answers
